@@ -695,7 +695,7 @@ class Engine:
                         v = Struct(norm_ty(ty) if ty_kind(norm_ty(ty)) == 'adt' else '()', {}, None)
                     cell.set(self, v)
                 t = type(v)
-                if t is Struct:
+                if isinstance(v, Struct):
                     c = v.f.get(p[1])
                     if c is None:
                         if v.backing is not None:
